@@ -183,7 +183,7 @@ theorem wf_moves_okX (srt : Sorter) (sp : Spec) (w : World) (ev : Event) (hs : S
           · split
             · exact .refl _
             · split
-              · exact .refl _
+              · exact .of_eq (checkAffected_tasks sp _ t).2
               · split <;> exact .refl _
       | rpcResult t ok =>
         simp only
